@@ -124,14 +124,22 @@ fn cfg_child(arg: &str) {
             });
             continue;
         }
+        // "t<n>": the call is made from another thread (the default is process-wide)
+        let (other_thread, n) = match n.strip_prefix('t') { Some(x) => (true, x), None => (false, n) };
         let n: usize = n.parse().unwrap();
-        out.push(match rsactor::set_default_mailbox_capacity(n) {
+        let call = move || match rsactor::set_default_mailbox_capacity(n) {
             Ok(()) => "ok".to_string(),
             Err(rsactor::Error::MailboxCapacity { .. }) => "MailboxCapacity".to_string(),
             Err(_) => "other".to_string(),
-        });
+        };
+        out.push(if other_thread { std::thread::spawn(call).join().unwrap_or_else(|_| "panicked".into()) } else { call() });
     }
-    // measure the capacity: one message sits in the (never finishing) handler, `cap` more are accepted
+    // measure the capacity on a thread of its own: one message sits in the (never finishing) handler, `cap` more are accepted
+    let cap = std::thread::spawn(measure_default_capacity).join().unwrap_or(usize::MAX);
+    println!("{};cap={}", out.join(","), cap);
+}
+
+fn measure_default_capacity() -> usize {
     let rt = tokio::runtime::Builder::new_current_thread().enable_time().start_paused(true).build().unwrap();
     let cap = rt.block_on(async {
         let (r, _jh) = rsactor::spawn::<Blocker>(());
@@ -149,7 +157,7 @@ fn cfg_child(arg: &str) {
         }
         n
     });
-    println!("{};cap={}", out.join(","), cap);
+    cap
 }
 
 fn main() {
@@ -307,7 +315,7 @@ fn main() {
     }
     // --- the same with actors spawned before or between the calls: spawn() reads the default when it runs
     let mut oracle_only: Vec<(String, String)> = vec![];
-    for hist in ["s,5", "s,0,4", "3,s,9", "s", "s,s,2", "0,s,6"] {
+    for hist in ["s,5", "s,0,4", "3,s,9", "s", "s,s,2", "0,s,6", "t5", "5,t7", "t0,t4", "s,t3", "t6,s,2"] {
         let out = Command::new(&exe).args(["--cfg-child", hist]).output().expect("cfg child");
         let text = String::from_utf8_lossy(&out.stdout).trim().to_string();
         let key = format!("tables cfgspawn {hist}");
@@ -315,10 +323,10 @@ fn main() {
         let mut cell: Option<usize> = None;
         let mut outs = vec![];
         for n in hist.split(',').filter(|x| !x.is_empty() && *x != "s") {
-            let n: usize = n.parse().unwrap();
+            let n: usize = n.trim_start_matches('t').parse().unwrap();
             if n > 0 && cell.is_none() { cell = Some(n); outs.push("ok") } else { outs.push("MailboxCapacity") }
         }
-        oracle.push((key, format!("{};cap={}", outs.join(","), cell.unwrap_or(32)), "C09 the configured default applies to every later spawn(), whether or not actors were spawned before the call"));
+        oracle.push((key, format!("{};cap={}", outs.join(","), cell.unwrap_or(32)), "C09 C18 the configured default is process-wide: it applies to every later spawn() on any thread, whether or not actors were spawned before the call, in every build"));
     }
     // --- spawn with capacity 0 is rejected (panics), 1 is accepted
     for cap in [0usize, 1, 2] {
